@@ -312,12 +312,16 @@ func TestVerifC16Concurrent(t *testing.T) {
 			"the ClientID attached at the processing stage is read from the query-log record of the request's unique question after the senders were joined; "+
 			"non-trivial = the request was started while an id-carrying request of another sender was in flight; distinct by (sender, round, question)")
 	defer func() {
+		if t.Failed() {
+			// An assertion of a product test helper ended the function.
+			rep.Inconcl("the test function was ended by a failed helper assertion (see the log)")
+		}
 		if err := rep.Write(); err != nil {
 			t.Fatal(err)
 		}
 	}()
 
-	s, qlog, doh := c16StartRealServer(t, rep, true)
+	s, qlog, doh := c16StartRealServer(t, rep, c16SetupDoTDoQ)
 	if s == nil {
 		return
 	}
